@@ -144,7 +144,12 @@ func (p *Program) NewLabel() Label {
 // Assemble resolves all jump destinations to concrete instructions using the labels.
 // This method takes care of long jumps and resolves them by using early returns or unconditional long jumps.
 func (p *Program) Assemble() ([]bpf.Instruction, error) {
-	for _, jump := range p.jumps {
+	// Resolve the jumps from the last to the first one. Helper instructions for long jumps are inserted
+	// directly after the jump that needs them, so an insertion never lands between an already resolved
+	// jump (or helper) and its destination and no resolved skip value becomes stale.
+	for i := len(p.jumps) - 1; i >= 0; i-- {
+		jump := p.jumps[i]
+
 		// This is safe since we are only accessing instructions that were inserted as bpf.JumpIf.
 		jumpInst := p.instructions[jump.index].(bpf.JumpIf)
 
@@ -159,6 +164,18 @@ func (p *Program) Assemble() ([]bpf.Instruction, error) {
 			return nil, err
 		}
 		jumpInst.SkipFalse = skip
+
+		// An instruction inserted directly after the jump moves the destination of the other branch.
+		// Resolve both labels again until nothing is inserted anymore.
+		for n := 0; n != len(p.instructions); {
+			n = len(p.instructions)
+			if jumpInst.SkipTrue, err = p.resolveLabel(jump, jump.trueLabel); err != nil {
+				return nil, err
+			}
+			if jumpInst.SkipFalse, err = p.resolveLabel(jump, jump.falseLabel); err != nil {
+				return nil, err
+			}
+		}
 
 		if jumpInst.SkipTrue == 0 && jumpInst.SkipFalse == 0 {
 			return nil, fmt.Errorf("useless jump found")
@@ -186,13 +203,13 @@ func (p *Program) resolveLabel(jump JumpIf, label Label) (uint8, error) {
 
 	// BPF does not support long conditional jumps.
 	if skipN > math.MaxUint8 {
-		insertAfter := findInsertAfter(p.jumps, jump)
+		insertAfter := jump
 
 		// If the jump destination is a return instruction, copy it and add an early return,
 		// if not, insert a long jump.
 		jumpDest := p.instructions[dest[0]]
 		if _, ok := jumpDest.(bpf.RetConstant); !ok {
-			jumpDest = bpf.Jump{Skip: uint32(skipN - int(insertAfter.index))}
+			jumpDest = bpf.Jump{Skip: uint32(skipN)}
 		}
 
 		insertIndex := p.insertAfter(insertAfter.index, jumpDest)
@@ -238,21 +255,6 @@ func (p *Program) updateIndices(after Index) {
 func (p *Program) computeSkipN(jump JumpIf, label Label) int {
 	dest := p.labels[label]
 	return int(dest[0]-jump.index) - 1
-}
-
-// To insert a new instruction into the instruction list, the furthest jump instruction within
-// a short jump is searched.
-// It is necessary to search a jump instruction to jump over the new inserted instruction
-// and do not disturb the program flow.
-func findInsertAfter(jumps []JumpIf, currentJump JumpIf) JumpIf {
-	insertAfter := currentJump
-	maxIndex := currentJump.index + 255
-	for _, jump := range jumps {
-		if jump.index < maxIndex {
-			insertAfter = jump
-		}
-	}
-	return insertAfter
 }
 
 // Calculate the index of the current instruction.
